@@ -4,3 +4,13 @@ From ArgMapper.proofs Require Import C0213Unsat.
 Theorem C13 : C13_statement.
 Proof. exact C13_proof. Qed.
 Print Assumptions C13.
+
+(* "its converter list contains every supplied converter", with multiplicity:
+   two supplied converters of one Go type are two entries of the list (no
+   well-formedness hypothesis needed).  Monitors.c13_convs_all is also
+   evaluated on the implementation. *)
+From ArgMapper Require Import ResolverStatements6.
+From ArgMapper.proofs Require C13Convs.
+Theorem C13_converters : C13_convs_statement.
+Proof. exact C13Convs.C13_convs_proof. Qed.
+Print Assumptions C13_converters.
